@@ -187,6 +187,12 @@ def hyp_cases(draw, tier):
     flavour = draw(st.sampled_from(["str", "str", "tuple", "dc", "obj_cb", "dictwrap", "obj_fwd", "obj_sub", "int"]))
     case = draw(gen_ops.histories(typed=typed, max_ops=40 if tier == "quick" else 80, fresh=flavour != "str", big=8))
     case["flavour"] = flavour
+    if draw(st.sampled_from([0] * 7 + [1])):
+        # directed: siblings whose NAMES sort differently from their repr() / from their data ("a" < "a 1" < "a1",
+        # but "'a 1'" < "'a'"), then the documented default order (by name)
+        p = draw(st.integers(-1, 6))
+        labs = draw(st.permutations(["a", "a 1", "a1", "b"]))
+        case["ops"] = [["add", p, lab, None, {}] for lab in labs[:3]] + [["sort", p, "default", draw(st.booleans()), draw(st.sampled_from([None, True, False]))]] + case["ops"][:6]
     return case
 
 
